@@ -68,6 +68,7 @@ def run_unit(unit, workdir):
         return res, [], ""
     res["rewrites"] = log
     res["trusted"] = scan_trusted(text)
+    res["trusted"] += [("assumed contract of a /repo function (proved in its home unit)", i.name) for i in infos if getattr(i, "assumed", False)]
     path = os.path.join(workdir, unit + ".rs")
     ppath = os.path.join(workdir, unit + "_probes.rs")
     with open(path, "w") as f:
@@ -118,6 +119,8 @@ def run_unit(unit, workdir):
         res["unplaced"] = [d.rendered for d in unplaced[:3]]
     # verus function names -> times
     for i in infos:
+        if getattr(i, "assumed", False):
+            continue
         st = "verified"
         failed = []
         for d in by_fn.get(id(i), []):
